@@ -43,7 +43,7 @@ func registerPW() {
 		Assume: []string{"interleaving granularity = writer calls (gzip buffers; small trees give few yields)", "under concurrency the source is spelled absolutely (a relative spelling would denote a different directory after Chdir)"},
 		Real:   realCommon, Sim: pwSim}
 	plans["C20"] = &Plan{ID: "C20", Level: "exploration",
-		Legs: []Leg{{World: "pw", Profile: "meta", Quick: 4000, Weight: 2}, {World: "pw", Profile: "links", Quick: 2000, Weight: 1}, {World: "pw", Profile: "ignore", Quick: 2000, Weight: 1}},
+		Legs: []Leg{{World: "pw", Profile: "meta", Quick: 4000, Weight: 2}, {World: "pw", Profile: "links", Quick: 2000, Weight: 1}, {World: "pw", Profile: "ignore", Quick: 2000, Weight: 1}, {World: "pw", Profile: "mutate", Quick: 1200, Weight: 1}},
 		Rule: "each evaluation = one successful Pack (any tree/options of the Pack world, incl. dereferenced files and directories, ignored subtrees, empty files, concurrent packs); Meta.Files must equal the decoded entry names in order and Meta.Size the stored content bytes and the sum of header sizes. distinct = scenario hash.",
 		Assume: []string{"thin simulation dimension: evaluated on the simulator's runs, incl. concurrent ones"},
 		Real:   realCommon, Sim: pwSim}
@@ -53,7 +53,7 @@ func registerPW() {
 		Assume: []string{"crash model: process death at a callback boundary with all completed system calls durable (go-slug never syncs and claims nothing about page-cache loss)", "syscall-level faults (EIO on open/rename) are not injected: no property quantifies over them", "a short write with nil error is not a fault kind (compress/flate discards the count)"},
 		Real:   realCommon, Sim: append(pwSim, "SimReader fault plans", "fault-injecting fetcher/registry/finder peers", "porcupine poison-history model")}
 	plans["C19"] = &Plan{ID: "C19", Level: "exploration",
-		Legs: append([]Leg{{World: "uw", Profile: "rawmut", Quick: 12000, Weight: 3}, {World: "uw", Profile: "mixed", Quick: 6000, Weight: 1}, {World: "pw", Profile: "hostile", Quick: 3000, Weight: 3}}, bwC19Legs()...),
+		Legs: append([]Leg{{World: "uw", Profile: "rawmut", Quick: 12000, Weight: 3}, {World: "uw", Profile: "mixed", Quick: 6000, Weight: 1}, {World: "pw", Profile: "hostile", Quick: 3000, Weight: 3}, {World: "pw", Profile: "mutate", Quick: 1200, Weight: 1}}, bwC19Legs()...),
 		Rule: "each evaluation = one hostile scenario in a watched worker process: Unpack of tar streams with mutated header bytes (checksums repaired), truncations, garbage tails and second gzip members; Pack of trees with link cycles, directory loops reached by dereference, links to fifos, degenerate rule files; bundle opening of hostile manifests and parsing of hostile peer-supplied address strings. Oracles: no recovered panic, process does not die inside an operation, Read/Write/peer-call counts within the stated step bound, operation returns within 10 s of real time (confirmed by a solo re-run). distinct = scenario hash.",
 		Assume: []string{"real-time budget only for blocking open(2) and runaway recursion, which cannot be counted in simulator steps"},
 		Real:   realCommon, Sim: pwSim}
